@@ -17,9 +17,10 @@ std::string firstDiff(const std::vector<uint8_t>& a, const std::vector<uint8_t>&
 	return "lengths " + std::to_string(a.size()) + " vs " + std::to_string(b.size()) + ", first difference at byte " + std::to_string(i);
 }
 
-template <class F> std::vector<uint8_t> writeVia(const Plan& plan, RunCtx& ctx, const std::string& wb, const std::string& tag, const char* clause, F&& writeTo) {
+template <class F> std::vector<uint8_t> writeVia(const Plan& plan, RunCtx& ctx, const std::string& wbIn, const std::string& tag, const char* clause, F&& writeTo) {
 	std::vector<uint8_t> out;
 	std::string what;
+	std::string wb = wbIn == "path" ? "file" : wbIn;
 	Out o = callLib(plan, [&] {
 		if (wb == "dyn") { Stream::DynamicMemoryWriter w; writeTo(w); auto rd = w.GetReader(); out.resize(static_cast<size_t>(rd.Length())); rd.Read(out.data(), out.size()); }
 		else if (wb == "sim") { SimWriter w; writeTo(w); out = w.data; }
@@ -37,9 +38,9 @@ struct BmpStream : Family {
 	Plan generate(const std::string&, Rng& r, bool thorough) override {
 		Plan p;
 		swarmEnv(p, r, true, true);
-		static const char* BK[] = {"mem", "file", "fileslice", "sim"};
-		p.setenv("backend", BK[r.below(4)]);
-		p.setenv("wbackend", r.chance(1, 2) ? "dyn" : r.chance(1, 2) ? "file" : "sim");
+		static const char* BK[] = {"mem", "file", "fileslice", "sim", "path"};
+		p.setenv("backend", BK[r.below(5)]);
+		p.setenv("wbackend", r.chance(1, 2) ? "dyn" : r.chance(1, 3) ? "file" : r.chance(1, 2) ? "sim" : "path");
 		Line b = mkline("world", "bmp");
 		static const int BITS[] = {1, 4, 8};
 		int bits = BITS[r.below(3)];
@@ -79,7 +80,10 @@ struct BmpStream : Family {
 		BitmapFile bf;
 		std::string what;
 		ctx.setOp(0);
-		Out o = callLib(plan, [&] { ReaderBox b = openBackend(backend, bytes, "in", plan.seed); bf = BitmapFile::ReadIndexed(*b.rd); }, &what);
+		Out o = callLib(plan, [&] {
+			if (backend == "path") { disk::put("in.bmp", bytes); bf = BitmapFile::ReadIndexed(std::string("in.bmp")); return; }
+			ReaderBox b = openBackend(backend, bytes, "in", plan.seed); bf = BitmapFile::ReadIndexed(*b.rd);
+		}, &what);
 		if (o != OkOut) ctx.fail("C08.valid", "a well-formed " + std::to_string(m.bits) + "-bit " + std::to_string(m.w) + "x" + std::to_string(m.h) + " bitmap with " + std::to_string(m.palette.size()) + " palette entries was not read (backend " + backend + "): " + what);
 		o = callLib(plan, [&] { bf.Validate(); }, &what);
 		if (o != OkOut) ctx.fail("C08.valid", "bitmap returned by the reader fails the library's own validation: " + what);
@@ -94,7 +98,12 @@ struct BmpStream : Family {
 		if (m.clrUsed) ctx.count("probe.partial_palette");
 		if (m.h < 0) ctx.count("probe.top_down"); else if (m.h == 0) ctx.count("probe.zero_height");
 		// write, inspect the bytes with the independent layout knowledge, read back
-		std::vector<uint8_t> w1 = writeVia(plan, ctx, wb, "w1", "C08.roundtrip", [&](Stream::Writer& w) { bf.WriteIndexed(w); });
+		std::vector<uint8_t> w1;
+		if (wb == "path") {
+			o = callLib(plan, [&] { bf.WriteIndexed(std::string("_w/p1.bmp")); }, &what);
+			if (o != OkOut) ctx.fail("C08.roundtrip", "WriteIndexed(filename) of a bitmap the reader returned failed: " + what);
+			if (!disk::get("_w/p1.bmp", w1)) ctx.fail("C08.roundtrip", "WriteIndexed(filename) left no file");
+		} else w1 = writeVia(plan, ctx, wb, "w1", "C08.roundtrip", [&](Stream::Writer& w) { bf.WriteIndexed(w); });
 		{
 			if (w1.size() < 54 || w1[0] != 'B' || w1[1] != 'M') ctx.fail("C08.roundtrip", "written file lacks a BMP header");
 			uint32_t fileSize = ref::getU32(w1, 2), pixelOffset = ref::getU32(w1, 10);
@@ -109,7 +118,7 @@ struct BmpStream : Family {
 			}
 		}
 		BitmapFile bf2;
-		o = callLib(plan, [&] { ReaderBox b = openBackend(backend == "sim" ? "mem" : backend, w1, "re", plan.seed ^ 5); bf2 = BitmapFile::ReadIndexed(*b.rd); }, &what);
+		o = callLib(plan, [&] { ReaderBox b = openBackend(backend == "sim" || backend == "path" ? "mem" : backend, w1, "re", plan.seed ^ 5); bf2 = BitmapFile::ReadIndexed(*b.rd); }, &what);
 		if (o != OkOut) ctx.fail("C08.roundtrip", "the bitmap the library wrote (" + std::to_string(m.bits) + "-bit, " + std::to_string(m.palette.size()) + " of " + std::to_string(1u << m.bits) + " palette entries) was not read back: " + what);
 		if (bf2.imageHeader.width != m.w || bf2.imageHeader.height != m.h || bf2.imageHeader.bitCount != m.bits) ctx.fail("C08.roundtrip", "width/height/depth changed in the round trip");
 		if (bf2.palette.size() < m.palette.size() || bf2.palette.size() > (1u << m.bits)) ctx.fail("C08.roundtrip", "palette has " + std::to_string(bf2.palette.size()) + " entries after the round trip, " + std::to_string(m.palette.size()) + " before");
@@ -338,9 +347,9 @@ struct PrtStream : Family {
 	Plan generate(const std::string&, Rng& r, bool thorough) override {
 		Plan p;
 		swarmEnv(p, r, true, true);
-		static const char* BK[] = {"mem", "file", "fileslice", "sim"};
-		p.setenv("backend", BK[r.below(4)]);
-		p.setenv("wbackend", r.chance(1, 2) ? "dyn" : r.chance(1, 2) ? "file" : "sim");
+		static const char* BK[] = {"mem", "file", "fileslice", "sim", "path"};
+		p.setenv("backend", BK[r.below(5)]);
+		p.setenv("wbackend", r.chance(1, 2) ? "dyn" : r.chance(1, 3) ? "file" : r.chance(1, 2) ? "sim" : "path");
 		Line w = mkline("world", "prt");
 		uint64_t npal = r.below(5);
 		bool many = r.chance(1, 25);
@@ -364,7 +373,10 @@ struct PrtStream : Family {
 		std::string what;
 		uint64_t posAfter = 0;
 		ctx.setOp(0);
-		Out o = callLib(plan, [&] { ReaderBox b = openBackend(backend, bytes, "in", plan.seed); art = ArtFile::Read(*b.rd); posAfter = b.rd->Position(); }, &what);
+		Out o = callLib(plan, [&] {
+			if (backend == "path") { disk::put("in.prt", bytes); art = ArtFile::Read(std::string("in.prt")); posAfter = bytes.size(); return; }
+			ReaderBox b = openBackend(backend, bytes, "in", plan.seed); art = ArtFile::Read(*b.rd); posAfter = b.rd->Position();
+		}, &what);
 		if (o != OkOut) ctx.fail("C10.roundtrip-equal", "a well-formed PRT (" + std::to_string(m.palettes.size()) + " palettes, " + std::to_string(m.images.size()) + " images, " + std::to_string(m.anims.size()) + " animations) was not read: " + what);
 		if (posAfter != bytes.size()) ctx.fail("C10.roundtrip-equal", "reader consumed " + std::to_string(posAfter) + " of " + std::to_string(bytes.size()) + " bytes");
 		// cross-field rules on the result
@@ -379,7 +391,11 @@ struct PrtStream : Family {
 		for (auto& a : m.anims) for (auto& f : a.frames) { ctx.count("probe.frame_flags_" + std::to_string(((f.layerMeta >> 7) & 1) * 2 + ((f.unknownBits >> 7) & 1))); if ((f.layerMeta & 0x7f) == 127) ctx.count("probe.layer_count_127"); if ((f.layerMeta & 0x7f) == 0) ctx.count("probe.layer_count_0"); }
 		// Write: bytes, constness, stability
 		std::vector<uint8_t> before = dumpArt(art);
-		std::vector<uint8_t> w1 = writeVia(plan, ctx, wb, "w1", "C10.byte-stable", [&](Stream::Writer& w) { art.Write(w); });
+		std::vector<uint8_t> w1;
+		if (wb == "path") {
+			o = callLib(plan, [&] { art.Write(std::string("_w/p1.prt")); }, &what);
+			if (o != OkOut || !disk::get("_w/p1.prt", w1)) ctx.fail("C10.byte-stable", "ArtFile::Write(filename) failed: " + what);
+		} else w1 = writeVia(plan, ctx, wb, "w1", "C10.byte-stable", [&](Stream::Writer& w) { art.Write(w); });
 		if (dumpArt(art) != before) ctx.fail("C10.write-const", "ArtFile::Write altered the in-memory object");
 		if (m.canonicalHeaders()) { if (w1 != bytes) ctx.fail("C10.reproduces-input", "written bytes differ from the (canonical) input: " + firstDiff(w1, bytes)); }
 		else {
@@ -390,7 +406,7 @@ struct PrtStream : Family {
 			ctx.count("probe.non_canonical_palette_headers");
 		}
 		ArtFile art2{};
-		o = callLib(plan, [&] { ReaderBox b = openBackend(backend == "sim" ? "mem" : backend, w1, "re", plan.seed ^ 3); art2 = ArtFile::Read(*b.rd); }, &what);
+		o = callLib(plan, [&] { ReaderBox b = openBackend(backend == "sim" || backend == "path" ? "mem" : backend, w1, "re", plan.seed ^ 3); art2 = ArtFile::Read(*b.rd); }, &what);
 		if (o != OkOut) ctx.fail("C10.roundtrip-equal", "what the library wrote was not read back: " + what);
 		if (dumpArt(art2) != before) ctx.fail("C10.roundtrip-equal", "structure read back after writing differs from the original");
 		std::vector<uint8_t> w2 = writeVia(plan, ctx, wb, "w2", "C10.byte-stable", [&](Stream::Writer& w) { art2.Write(w); });
